@@ -141,9 +141,100 @@ def bounded_parse(chk):
 def run(chk):  # noqa: F811
     p1_resolve_entity(chk)
     p2_get_next(chk)
+    p3_tokenize_precondition(chk)
     bounded_compute_path(chk)
     bounded_parse(chk)
     chk.assumptions += [
         "whole-pipeline totality (20 refinement passes, tagext/imgmap handlers, the C++ scanner) is NOT a discharged contract: only the leaf mechanisms above are proved; the rest is observed by the bounded stand-in",
         "library contracts of int()/chr()/str slicing; html.entities.name2codepoint values lie in range(0x110000) (data lemma, checked concretely)",
     ]
+
+
+# ----------------------------------------------------------------------------- P3: tokenize is never handed an empty text
+CORE = "mwlib/parser/refine/core.py"
+UTOKEN = "mwlib/parser/token/utoken.py"
+
+
+class _Stop(Exception):
+    """end of the verified prefix of parse_txt (everything up to and including the tokenize call)"""
+
+
+def p3_tokenize_precondition(chk):
+    from pyvc.values import PObj, SStr, Model, ClassRef
+    from pyvc import source
+
+    # -- the callee: tokenize raises ValueError exactly on falsy input (its precondition)
+    ex = Explorer()
+    fn_tok = ex.function(UTOKEN, "tokenize")
+    ex.models["mwlib.parser.token.utoken.compat_scan"] = Model("compat_scan", lambda I, t, uniquifier=None: PObj("tokenlist", {}))
+    ex.global_overrides[(UTOKEN, "compat_scan")] = Model("compat_scan", lambda I, t, uniquifier=None: PObj("tokenlist", {}))
+
+    def h_tok(I):
+        t = I.fresh("text", z3.StringSort())
+        I.inputs["text"] = t
+        out = ex.run_function(I, fn_tok, [SStr(t)])
+        I.oblige("raises_exactly_on_empty_text", z3.If(z3.Length(t) == 0, z3.BoolVal(bool(out.raised("ValueError") is True or (not out.returned))), z3.BoolVal(out.returned)))
+    chk.prove("utoken.tokenize", h_tok, ex, targets=[fn_tok])
+
+    # -- the caller: parse_txt (every parse, and every tag extension re-parsing its body, goes through it)
+    ex = Explorer()
+    fn = ex.function(CORE, "parse_txt")
+    mk = lambda name: (lambda I, *a, **k: PObj(name, {}))      # noqa: E731
+    ex.constructors["Expander"] = lambda I, c, *a, **k: PObj("Expander", {})
+    ex.constructors["DictDB"] = lambda I, c, *a, **k: PObj("DictDB", {})
+    ex.constructors["ImageMod"] = lambda I, c, *a, **k: PObj("ImageMod", {})
+    ex.constructors["Uniquifier"] = lambda I, c, *a, **k: PObj("Uniquifier", {})
+    ex.models["mwlib.core.nshandling.get_nshandler_for_lang"] = Model("get_nshandler_for_lang", mk("nshandler"))
+    ex.inline.add(CORE + ":XBunch.__init__")
+    ex.inline.add(CORE + ":XBunch.__getattr__")
+
+    def replace_tags(I, u, txt):
+        # assumed contract of Uniquifier.replace_tags: any string may come back - comments are
+        # removed, so a non-empty text can become empty
+        r = I.fresh("text_without_comments_and_tags", z3.StringSort())
+        I.inputs["text_after_replace_tags"] = r
+        return SStr(r)
+    ex.methods[("Uniquifier", "replace_tags")] = Model("Uniquifier.replace_tags", replace_tags)
+    ex.methods[("logger", "debug")] = Model("log.debug", lambda I, l, *a, **k: None)
+    ex.global_overrides[(CORE, "log")] = PObj("logger", {})
+
+    def tokenize_contract(I, txt, uniquifier=None):
+        I.oblige("tokenize_precondition_text_is_not_empty", z3.Length(z3_of_str(txt)) > 0)
+        raise _Stop()
+    ex.contracts[UTOKEN + ":tokenize"] = tokenize_contract
+
+    def z3_of_str(v):
+        from pyvc.values import z3_of
+        return z3_of(v)
+
+    def harness(I):
+        t = I.fresh("txt", z3.StringSort())
+        I.inputs["txt"] = t
+        kw = {}
+        if I.decide(I.fresh("caller_passes_a_uniquifier", z3.BoolSort())):
+            kw["uniquifier"] = PObj("Uniquifier", {})
+        if I.decide(I.fresh("caller_passes_lang", z3.BoolSort())):
+            kw["lang"] = "de"
+        try:
+            out = ex.run_function(I, fn, [SStr(t)], kw)
+        except _Stop:
+            I.cover("reaches_tokenize")
+            return
+        I.oblige("returns_without_tokenizing_only_for_empty_text", z3.And(out.returned))
+    chk.prove("core.parse_txt[up to tokenize]", harness, ex, targets=[fn], replay=replay_parse_txt)
+
+
+def replay_parse_txt(model, obligation):
+    from mwlib.parser.refine import core, uparser
+    cands = ["<!-- c -->", "<!---->", "<!-- a --><!-- b -->", "<time><!-- x --></time>", "<ref><!-- x --></ref>", "", " ", "\n",
+             "<nowiki></nowiki>", "<!-- c -->\n", "<math></math>", "<gallery><!-- --></gallery>", "<poem><!-- x --></poem>"]
+    for s in cands:
+        for how in ("parse_txt", "parse_string"):
+            try:
+                if how == "parse_txt":
+                    core.parse_txt(s)
+                else:
+                    uparser.parse_string("t", s)
+            except Exception as e:  # noqa: BLE001
+                return True, {"call": f"{how}({s!r})", "raised": f"{type(e).__name__}: {e}"}, "tokenize_empty"
+    return False, {"cases": 2 * len(cands)}, None
